@@ -226,7 +226,19 @@ class Interp:
         return isinstance(t, str) and t in INT_TYPES
 
     def is_u8(self, t):
-        return self.rt(t) == "u8"
+        t = self.rt(t)
+        if t == "u8":
+            return True
+        # MaybeUninit<u8> is a byte for region purposes (initialisation is tracked separately)
+        if isinstance(t, dict) and t.get("k") == "adt" and t["path"].endswith("MaybeUninit") and t["args"] and \
+                "t" in t["args"][0] and self.rt(t["args"][0]["t"]) == "u8":
+            return True
+        return False
+
+    def is_maybe_uninit_u8(self, t):
+        t = self.rt(t)
+        return isinstance(t, dict) and t.get("k") == "adt" and t["path"].endswith("MaybeUninit") and t["args"] and \
+            "t" in t["args"][0] and self.rt(t["args"][0]["t"]) == "u8"
 
     def is_byte_slice_like(self, t):
         """[u8], [u8;N], str"""
@@ -286,6 +298,9 @@ class Interp:
             return VTuple([self.materialize(st, x, key + (i,), assume_inv) for i, x in enumerate(t["of"])])
         if k == "array":
             n = t["len"]
+            if n is not None and self.is_maybe_uninit_u8(t["of"]):
+                ia = reg_atom(("initlen", key), 0, n)
+                return VArray(None, n, key, self.rt(t["of"]), init=Lin.atom(ia))
             if n is not None and n <= 64:
                 return VArray(tuple(self.materialize(st, t["of"], key + (i,), assume_inv) for i in range(n)), n,
                               key, self.rt(t["of"]))
@@ -521,6 +536,8 @@ class Interp:
         if isinstance(p, dict) and "idx" in p:
             iv = fr.locals.get(p["idx"]) if fr else None
             return self.index_value(st, v, iv)
+        if isinstance(p, dict) and "cidx" in p and isinstance(v, VArray) and v.init is not None and not p["from_end"]:
+            return self.index_value(st, v, VInt(Lin.const(p["cidx"])))
         if isinstance(p, dict) and "cidx" in p:
             if isinstance(v, VArray) and v.elems is not None:
                 i = p["cidx"] if not p["from_end"] else v.n - p["cidx"]
@@ -529,6 +546,11 @@ class Interp:
         return VOpaque(None, ("pv", fresh_id()))
 
     def index_value(self, st, v, iv):
+        if isinstance(v, VArray) and v.init is not None:
+            inner = UNINIT
+            if isinstance(iv, VInt) and st.entails(iv.lin) and st.entails(v.init - iv.lin - 1):
+                inner = VInt(Lin.atom(reg_atom(("v", ("mb", fresh_id())), 0, 255)))
+            return VAdt("core::mem::MaybeUninit", 0, (inner,), None, None)
         if isinstance(v, VArray):
             if v.elems is not None and isinstance(iv, VInt) and iv.lin.is_const():
                 i = iv.lin.c
@@ -594,6 +616,12 @@ class Interp:
             root = self.get_root(st, cur[1], cur[2])
             nv = self.update_value(st, root, cur[3], val)
             self.set_root(st, cur[1], cur[2], nv)
+            if self.inv_targets is not None and st.frames and isinstance(val, (VAdt, VTuple)) and \
+                    cur[1] != st.frames[-1].fid:
+                fr0 = st.frames[-1]
+                key0 = (cur[1], cur[2], cur[3])
+                if key0 not in fr0.dirty:
+                    fr0.dirty = fr0.dirty + (key0,)
             if self.inv_targets is not None and cur[3]:
                 # a write below a struct with an inferred invariant is a construction site of that struct
                 projs = cur[3]
@@ -629,7 +657,7 @@ class Interp:
             if isinstance(v, VAdt) and v.fields is not None:
                 fs = list(v.fields)
                 fs[i] = self.update_value(st, fs[i], projs[1:], val)
-                return VAdt(v.path, v.variant, tuple(fs), v.key, v.ty)
+                return VAdt(v.path, v.variant, tuple(fs), None, v.ty)
             if isinstance(v, VTuple):
                 fs = list(v.fields)
                 fs[i] = self.update_value(st, fs[i], projs[1:], val)
@@ -697,6 +725,22 @@ class Interp:
         if r.origin[0] == "place":
             cur = ("place", r.origin[1], r.origin[2], r.origin[3])
             arr = self.load(st, cur)
+            if isinstance(arr, VArray) and arr.init is not None:
+                a = r.off + (lo if lo is not None else Lin.const(0))
+                ln = n if n is not None else r.len
+                # contiguous extension of the initialised prefix: a <= init  =>  init' = max(init, a+ln)
+                if st.entails(arr.init - a):
+                    if st.entails(a + ln - arr.init):
+                        ni = a + ln
+                    elif st.entails(arr.init - a - ln):
+                        ni = arr.init
+                    else:
+                        m = Lin.atom(reg_atom(("v", ("initmax", fresh_id())), 0, arr.n if arr.n is not None else I64MAX))
+                        st.add_ge0(m - arr.init)
+                        st.add_ge0(m - a - ln)
+                        ni = m
+                    self.store(st, cur, VArray(None, arr.n, arr.key, arr.ety, init=ni))
+                return
             if isinstance(arr, VArray):
                 if arr.elems is not None:
                     a = r.off + (lo if lo is not None else Lin.const(0))
@@ -1000,8 +1044,6 @@ class Interp:
             if a == "adt":
                 t = dest_ty if isinstance(dest_ty, dict) and dest_ty.get("k") == "adt" else None
                 v = VAdt(kind["path"], kind["variant"], tuple(ops), None, t)
-                if self.inv_targets is not None and kind["path"] in self.inv_targets:
-                    self.record_construction(st, v)
                 return v
             if a == "closure":
                 return VClosure(kind["path"], ops)
@@ -1011,6 +1053,8 @@ class Interp:
         if k == "repeat":
             v = self.eval_operand(st, fr, rv["op"])
             n = rv["n"]
+            if isinstance(dest_ty, dict) and dest_ty.get("k") == "array" and self.is_maybe_uninit_u8(dest_ty["of"]):
+                return VArray(None, n, ("rep", fresh_id()), self.rt(dest_ty["of"]), init=Lin.const(0))
             if n is not None and n <= 64:
                 return VArray(tuple([v] * n), n, None, self.rt(dest_ty["of"]) if isinstance(dest_ty, dict) and "of" in dest_ty else None)
             return VArray(None, n, ("rep", fresh_id()), self.rt(dest_ty["of"]) if isinstance(dest_ty, dict) and "of" in dest_ty else None)
@@ -1206,6 +1250,23 @@ class Interp:
             a = reg_atom(("addr", ("unk", fresh_id())), 0, U64MAX)
             return VInt(Lin.atom(a))
         if kind == "Transmute":
+            adt = self.F.adts.get(t["path"]) if isinstance(t, dict) and t.get("k") == "adt" else None
+            if adt is not None and adt["kind"] == "enum" and isinstance(v, VInt) and \
+                    all(not x["fields"] for x in adt["variants"]):
+                ds = sorted(x["discr"] for x in adt["variants"])
+                contiguous = ds == list(range(ds[0], ds[-1] + 1))
+                ok = contiguous and st.entails(v.lin - ds[0]) and st.entails(Lin.const(ds[-1]) - v.lin)
+                self.oblige(st, "valid", "transmute integer to enum %s: value is a declared discriminant" % t["path"],
+                            ok, self.cur_site, self.cur_sp,
+                            "" if ok else "need %d <= %s <= %d; facts: %s" % (ds[0], show_lin(v.lin), ds[-1],
+                                                                             self.show_facts(st, v.lin)),
+                            expn=self.cur_expn)
+                res = self.materialize(st, t, ("transmute", fresh_id()))
+                if isinstance(res, VAdt) and res.variant is None:
+                    da = self.discr_atom(res)
+                    st.add_ge0(Lin.atom(da) - v.lin)
+                    st.add_ge0(v.lin - Lin.atom(da))
+                return res
             self.oblige(st, "valid", "transmute", False, self.cur_site, self.cur_sp, "transmute not modelled",
                         expn=self.cur_expn)
             return self.materialize(st, t, ("transmute", fresh_id()))
@@ -1390,20 +1451,44 @@ class Interp:
         self.sink.events.append(("unknown_term", fr.body["path"], self.cur_site, t.get("d")))
         return []
 
-    def flush_dirty(self, st, fr):
+    def flush_dirty(self, st, fr, returning=False):
         if not fr.dirty:
             return
         for (fid, local, projs) in fr.dirty:
-            if fid == fr.fid and not st.frames:
-                pass
+            if returning and fid == fr.fid:
+                # a local of the returning frame dies here; what escapes is the return value (walked separately)
+                continue
             v = self.load(st, ("place", fid, local, projs))
-            if isinstance(v, VAdt) and v.variant == 0 and v.path in self.inv_targets:
-                self.record_construction(st, v)
+            self.record_escaping(st, v)
         fr.dirty = ()
 
+    def record_escaping(self, st, v, depth=0):
+        """record every invariant-bearing struct value contained in v (a value that becomes observable)"""
+        if depth > 5 or v is None:
+            return
+        if isinstance(v, VAdt):
+            if v.fields is None:
+                return
+            if v.variant == 0 and v.path in self.inv_targets and v.key is None:
+                self.record_construction(st, v)
+            elif v.variant == 0 and v.path in self.inv_targets:
+                # materialised (assumed valid) values: only re-record when they were modified, which gives key None
+                pass
+            for f in v.fields:
+                if isinstance(f, (VAdt, VTuple)):
+                    self.record_escaping(st, f, depth + 1)
+        elif isinstance(v, VTuple):
+            for f in v.fields:
+                if isinstance(f, (VAdt, VTuple)):
+                    self.record_escaping(st, f, depth + 1)
+
     def exec_return(self, st, fr):
-        if self.inv_targets is not None and fr.dirty:
-            self.flush_dirty(st, fr)
+        if self.inv_targets is not None:
+            if fr.dirty:
+                self.flush_dirty(st, fr, returning=True)
+            rv0 = fr.locals.get(0)
+            if isinstance(rv0, (VAdt, VTuple)):
+                self.record_escaping(st, rv0)
         rv = fr.locals.get(0)
         if rv is None:
             rv = VTuple(())
@@ -1730,6 +1815,18 @@ class Interp:
             return self.call_value(st, fv, args, dty, ret_k, site)
         path = callee.get("res") or callee["decl"]
         decl = callee["decl"]
+        if self.inv_targets is not None:
+            body0 = self.F.bodies.get(path) if callee.get("res_local") else None
+            will_inline = body0 is not None and (len(st.frames) <= self.max_depth or body0.get("unsafe")) and \
+                self.models.lookup(path, decl, callee) is None
+            if not will_inline:
+                for a in args:
+                    if isinstance(a, (VAdt, VTuple)):
+                        self.record_escaping(st, a)
+                    elif isinstance(a, VRef) and not (a.fid == 0 and isinstance(a.local, tuple) and a.local and a.local[0] == "h"):
+                        tv = self.load(st, ("place", a.fid, a.local, a.projs))
+                        if isinstance(tv, (VAdt, VTuple)):
+                            self.record_escaping(st, tv)
         call = CallInfo(self, st, fr, t, callee, path, decl, args, dty, ret_k, site, sp, expn)
         # models (by resolved path, then by declared path)
         m = self.models.lookup(path, decl, callee)
@@ -1836,6 +1933,9 @@ class Interp:
         if isinstance(old, VTuple):
             return VTuple([self.havoc_value(st, f) for f in old.fields])
         if isinstance(old, VArray):
+            if old.init is not None:
+                ia = reg_atom(("initlen", key), 0, old.n if old.n is not None else I64MAX)
+                return VArray(None, old.n, key, old.ety, init=Lin.atom(ia))
             return VArray(None, old.n, key, old.ety)
         if isinstance(old, VVec):
             cap = old.cap
